@@ -127,6 +127,8 @@ def init_strategy(kind):
         # a network that went through a tuple-renaming merge and then re-used the freed IDs for new duplicates
         st.tuples(st.just("after-merge"), mem, mem).map(list),
         st.tuples(st.just("after-merge"), mem, mem).map(list),
+        # a network holding an edge that carries attributes and was emptied (kept with remove_empty=False)
+        st.tuples(st.just("emptied-edge"), mem, mem).map(list),
         # a fresh network whose only edge was added singly under a falsy explicit ID (0, 0.0, numpy 0): the counter must have moved
         st.tuples(st.just("first-explicit"), mem, st.sampled_from(["int", "int", "float", "npint"])).map(list),
     )
@@ -150,6 +152,13 @@ def make_init(init):
         return xgi.Hypergraph(I)
     if t == "copyof":
         return xgi.Hypergraph(xgi.Hypergraph({k: list(m) for k, m in init[1]}))
+    if t == "emptied-edge":
+        H = xgi.Hypergraph()
+        H.add_edge(list(init[1]), idx="kept", color="blue", w=2.5)
+        H.add_edge(list(init[2]))
+        for v in list(H.edges.members("kept")):
+            H.remove_node_from_edge("kept", v, remove_empty=False)
+        return H
     if t == "first-explicit":
         H = xgi.Hypergraph()
         H.add_edge(list(init[1]), idx=nets.ZERO[init[2]])
